@@ -72,6 +72,15 @@ def run(ctx):
                 d = gen.cf2d(rng, ny=11, nx=12, holes='random', invalid=False)
             elif n == 1:
                 d = gen.arakawa(rng, nj=12, ni=11, holes='random', invalid=False)
+            elif n in (4, 9):
+                # meshes mixing vertex counts that average to a quadrilateral (3 + 5, 3 + 4 + 5): every ring is still that cell's own
+                nodes_m, faces_m = [], []
+                for m_, sides in enumerate([3, 5] if n == 4 else [5, 4, 3, 4]):
+                    base_m = len(nodes_m)
+                    ring_m = {3: [(0, 0), (6, 0), (0, 6)], 4: [(0, 0), (6, 0), (6, 6), (0, 6)], 5: [(0, 0), (6, 0), (8, 4), (3, 8), (-2, 4)]}[sides]
+                    nodes_m += [(x + 16 * m_, y) for x, y in ring_m]
+                    faces_m.append(list(range(base_m, base_m + sides)))
+                d = gen.ugrid(rng, mesh=(nodes_m, faces_m), invalid=False, supplied=set())
             else:
                 d = gen.any_dataset(rng, gen.FAMILIES[n % len(gen.FAMILIES)])
             scaled = rng.random() < 0.4
@@ -107,7 +116,8 @@ def run(ctx):
                 path = os.path.join(tmp, f'{stem}.{ {"geojson": "geojson", "shapefile": "shp", "wkt": "wkt", "wkb": "wkb"}[fmt] }')
                 with warnings.catch_warnings():
                     warnings.simplefilter('ignore')
-                    r = attempt(getattr(geometry_ops, f'write_{fmt}'), ds, path)
+                    import pathlib
+                    r = attempt(getattr(geometry_ops, f'write_{fmt}'), ds, pathlib.Path(path) if (n + len(fmt)) % 2 else path)
                 if r[0] != 'ok':
                     ctx.report('property', f'write_{fmt} failed: {r[1]}', case)
                     continue
